@@ -241,6 +241,11 @@ class HistRunner:
                                  what='%s was not rebuilt although %s was force-rebuilt (redo) in a run that had already checked one of them'
                                       % late_hits[0]))
         self.late |= ctx['late']
+        for n in sorted(ctx.get('unsettled_overbuild', ())):
+            if n in ex:
+                anoms.append(Anomaly(cls='overbuild', key='overbuild:nested-checksummed-targets-not-settled-in-one-round', cont=True, target=n,
+                                     what='%s was rebuilt although every checksummed target below it kept its checksum: with two nested levels of '
+                                          'checksummed targets undecided, redo gives up after one out-of-band round and runs it' % n))
         for n in sorted(ctx.get('absorbed', ())):
             anoms.append(Anomaly(cls='underbuild', key='underbuild:forced-rebuild-after-check-in-same-run-not-seen-by-dependents', cont=True, target=n,
                                  what='%s was force-rebuilt (redo) after it had already been checked in the same run: redo does not mark it changed, '
